@@ -303,6 +303,49 @@ func runC16(s *Sim) {
 		}
 		return ls[len(ls)-1]
 	}
+	if t.Bool("replies-never-drained", 1, 150) {
+		// an application that only uses SendCallAndWaitReplayCall and never calls ReceiveReplyCall:
+		// each call still gets its own reply, however many replies nobody ever picks up
+		s.Family = "e2e-calls/replies-never-drained"
+		nn := Pick(t, "undrained-n", 1030, 1100)
+		b.Cfg.AutoCallAck = true
+		for k := 0; k < nn; k++ {
+			n++
+			name := fmt.Sprintf("q%d", n)
+			op := y.sendCallOp("call-wait", name, "payload-"+name, "")
+			op.CtxKind, op.Timeout = "deadline", 30*time.Second
+			s.Start(0, op)
+			s.Wait()
+			y.flushLinks()
+			var bc *bCall
+			for i := len(b.Calls) - 1; i >= 0; i-- {
+				if b.Calls[i].Msg.Name == name {
+					bc = b.Calls[i]
+					break
+				}
+			}
+			l := link()
+			if bc == nil || l == nil {
+				s.HarnessError("undrained-replies: call %s did not reach the broker", name)
+				return
+			}
+			replied[bc.Msg.CallID] = true
+			b.EmitCall(l, "rep-"+bc.Msg.CallID, bc.Msg.CallID, "peer", "reply-to-"+name, []byte("reply-payload-"+name))
+			y.flushLinks()
+			if !op.harvested {
+				y.PumpUntil(func() bool { return op.harvested }, 100*time.Millisecond, 5*time.Second)
+			}
+			r, _ := op.Res.(*iscp.DownstreamReplyCall)
+			if !op.harvested || op.Err != nil || r == nil || string(r.Payload) != "reply-payload-"+name {
+				s.Violate("C16.reply-not-delivered-to-caller", "replies-never-drained", "SendCallAndWaitReplayCall #%d (%s) of an application that never calls ReceiveReplyCall: returned=%v err=%s although the broker acknowledged the call and sent its reply", k+1, name, op.harvested, errString(op.Err))
+				return
+			}
+		}
+		b.Cfg.AutoCallAck = false
+		s.Stat("env.replies-never-drained")
+		withCut = true // the generic in-order oracle for ReceiveReplyCall does not apply (the queue overflowed)
+		cutsLeft = 0
+	}
 	for step := 0; step < maxSteps; step++ {
 		var acts []Action
 		for ti := 0; ti < nCallers; ti++ {
